@@ -111,8 +111,15 @@ def check_property(pid, tier, seed):
                 c = factory(*unit[2], bound_n=n)
                 c.excluded_regions = set(active_regions)
                 return c
-            rep, cx_info = find_counterexample(eng, mk, u['variant'], name, ns=(1, 2) if tier == 'quick' else (1, 2, 3),
-                                               log=lambda s: None, budget_s=150 if tier == 'quick' else 600)
+            probe = mk(None)
+            if not hasattr(probe, 'replay_model'):
+                # no model concretisation for this contract: bounded search on the real function, if it offers one
+                rep, cx_info = (probe.search_real(eng), {'search': 'bounded search on the real function'}) if hasattr(probe, 'search_real') else (None, {})
+                if rep is not None:
+                    rep['clause'] = name
+            else:
+                rep, cx_info = find_counterexample(eng, mk, u['variant'], name, ns=(1, 2) if tier == 'quick' else (1, 2, 3),
+                                                   log=lambda s: None, budget_s=150 if tier == 'quick' else 600)
             entry['counter_model_search'] = cx_info
         except Exception:
             entry['triage_error'] = traceback.format_exc()[-600:]
